@@ -41,6 +41,8 @@ def lock_jobs(rng, classes, profiles, runs_per_class, flavor="plain", ops_total=
             }
             if flavor == "plain" and i % 3 == 2:
                 args["preempt"] = 1  # SIGUSR1-based stalls at arbitrary instructions
+            if cls == "opt" and args["locks"] >= 2 and i % 3 == 1:
+                args["coupling"] = 1  # optimistic lock coupling (verify lock i while holding a grant on lock j > i)
             if extra:
                 args.update(extra)
             build = "lock_stress.%s%s" % (flavor, ("." + variant) if variant else "")
@@ -51,6 +53,13 @@ def lock_jobs(rng, classes, profiles, runs_per_class, flavor="plain", ops_total=
             jobs.append(Job(build, args, timeout=timeout, tag="%s/%s" % (cls, prof), cost=min(threads, 8),
                             stderr_rules=rules))
     return jobs
+
+
+def fast_jobs(rng, classes, runs_per_class, flavor="plain", variant=""):
+    """Full-speed runs: no injected delay, no hold time, many operations (races that need sheer repetition)."""
+    return lock_jobs(rng, classes, ["readers", "sx", "ssix", "mixed", "convert"], runs_per_class, flavor=flavor,
+                     ops_total=400000, mcs_ops_total=60000, threads_choices=(2, 3, 4, 6, 8), locks_choices=(1, 1, 2),
+                     chaos_choices=(0,), hold_choices=(0,), variant=variant)
 
 
 def seq_jobs(rng, classes, runs_per_class, programs=300, flavor="plain", hang_s=15, timeout=900, variant=""):
@@ -106,8 +115,10 @@ def spec_C01(prop, tier, seed, t0):
         jobs = lock_jobs(rng, CLASSES, profs, 24)
         jobs += seq_jobs(rng, CLASSES, 5)
         jobs += spinalt_jobs(rng, CLASSES, profs, 4)
+        jobs += fast_jobs(rng, CLASSES, 3)
     else:
         jobs = lock_jobs(rng, CLASSES, profs, 300, ops_total=40000, mcs_ops_total=10000)
+        jobs += fast_jobs(rng, CLASSES, 30)
         jobs += seq_jobs(rng, CLASSES, 60, programs=600)
         jobs += lock_jobs(rng, CLASSES, profs, 60, variant="spinalt")
         jobs += lock_jobs(rng, CLASSES, profs, 40, flavor="tsan", ops_total=8000, mcs_ops_total=3000)
@@ -118,10 +129,11 @@ def spec_C01(prop, tier, seed, t0):
 
 def spec_C07(prop, tier, seed, t0):
     rng = random.Random(seed * 7919 + 7)
-    profs = ["mixed", "convert", "random", "optimistic", "prepare"]
-    n = 8 if tier == "quick" else 200
+    profs = ["mixed", "convert", "random", "optimistic", "prepare", "readers", "ssix", "sx"]
+    n = 10 if tier == "quick" else 200
     jobs = seq_jobs(rng, CLASSES, 8 if tier == "quick" else 200, programs=300 if tier == "quick" else 800)
     jobs += lock_jobs(rng, CLASSES, profs, n)
+    jobs += fast_jobs(rng, CLASSES, 3 if tier == "quick" else 30)
     if tier != "quick":
         jobs += seq_jobs(rng, CLASSES, 20, programs=300, flavor="asan")
     return _mk(prop, tier, seed, t0, jobs, {"guard_ownership_checks": 100000, "programs": 4000, "op_MoveCtor": 3000,
@@ -160,8 +172,10 @@ def spec_C02(prop, tier, seed, t0):
                           mcs_ops_total=5000, chaos_choices=(2, 3))
         jobs += seq_jobs(rng, CLASSES, 3)
         jobs += spinalt_jobs(rng, CLASSES, profs, 4)
+        jobs += fast_jobs(rng, CLASSES, 3)
     else:
         jobs = seq_jobs(rng, CLASSES, 60, programs=600)
+        jobs += fast_jobs(rng, CLASSES, 30)
         jobs += lock_jobs(rng, CLASSES, profs, 400, chaos_choices=(1, 2, 3, 3), ops_total=40000, mcs_ops_total=10000)
         jobs += lock_jobs(rng, ["mcs"], ["xonly", "mixed", "convert", "sx"], 200, threads_choices=(16, 24),
                           mcs_ops_total=8000, chaos_choices=(2, 3))
@@ -231,6 +245,7 @@ def spec_C12(prop, tier, seed, t0):
                      mcs_ops_total=6000, chaos_choices=(1, 2, 3))
     jobs += lock_jobs(rng, ["mcs"], profs, n // 2, flavor="asan", hold_choices=(500, 2000, 20000),
                       locks_choices=(1, 2, 3), mcs_ops_total=4000, chaos_choices=(1, 2, 3))
+    jobs += fast_jobs(rng, ["mcs"], 6 if tier == "quick" else 60)
     return _mk(prop, tier, seed, t0, jobs, {"mcs_nodes_allocated": 500, "ops_total": 50000})
 
 
